@@ -44,6 +44,57 @@ def lit_str(d):
     return None
 
 
+def loop_item_literals(b, fl, operand):
+    """the string literals a loop variable ranges over when it is the item of `for x in [lit, lit, ..]`:
+    operand <- (next(..) as Some).0 <- next(&mut it) <- it = into_iter([..literals..])"""
+    op = operand
+    for _ in range(8):
+        if op is None or op.place is None:
+            return []
+        pl = op.place
+        d = fl.single_def(pl.local)
+        if d is None:
+            return []
+        rv = getattr(d, "rv", None)
+        if rv is not None and rv.k == "use" and rv.ops[0].place is not None:
+            src = rv.ops[0].place
+            if src.proj and any(isinstance(e, dict) and e.get("as") == "Some" for e in src.proj):
+                # the item of an Option returned by next()
+                nd = fl.single_def(src.local)
+                if nd is None or getattr(nd, "k", None) != "call" or not nd.callee or not nd.callee.short.endswith("Iterator::next"):
+                    return []
+                its = [o[1] for o in fl._operand_pts(nd.args[0]) if o[0] == "L"]
+                out = []
+                # the iterator variable may be a copy of the into_iter() result
+                its2 = set(its)
+                for it in list(its):
+                    l_ = it
+                    for _h in range(5):
+                        d_ = fl.single_def(l_)
+                        r_ = getattr(d_, "rv", None) if d_ is not None else None
+                        if r_ is not None and r_.k == "use" and r_.ops[0].place is not None and not r_.ops[0].place.proj:
+                            l_ = r_.ops[0].place.local
+                            its2.add(l_)
+                        else:
+                            break
+                for it in sorted(its2):
+                    for (dbb, idf) in b.assigns_to(it):
+                        if getattr(idf, "k", None) == "call" and idf.callee and idf.callee.short.split("::")[-1] in ("into_iter", "iter") and idf.args:
+                            ad = fl.single_def(idf.args[0].place.local) if idf.args[0].place is not None else None
+                            arv = getattr(ad, "rv", None) if ad is not None else None
+                            if arv is not None and arv.k == "aggr" and arv.j.get("ak") == "array":
+                                for o in arv.ops:
+                                    s_ = lit_str(fl.describe(o, depth=4))
+                                    if s_ is None:
+                                        return []
+                                    out.append(s_)
+                return sorted(set(out))
+            op = rv.ops[0]
+            continue
+        return []
+    return []
+
+
 def within(inner, outer):
     return inner["file"] == outer["file"] and (outer["line"], outer["col"]) <= (inner["line"], inner["col"]) and (inner["eline"], inner["ecol"]) <= (outer["eline"], outer["ecol"])
 
@@ -85,17 +136,14 @@ def run(ctx):
             if nm.endswith("Writer::write_event"):
                 ev = fl.single_def(t.args[1].place.local) if t.args[1].place is not None else None
                 if ev is None or getattr(ev, "rv", None) is None or ev.rv.k != "aggr":
-                    ctx.violation("V1", "unrecognised-event|" + wb.short, "write_event with an event the analysis cannot identify (fail closed)", loc_str(t.span))
+                    # the event was built earlier and reaches the writer through a variable / an array that is looped
+                    # over: accepted when it derives from Event values built in this body (those are collected below)
+                    sl_ev = fl.slice_local(fl._op_reads(t.args[1]), data_only=True)
+                    built = [s_ for s_ in wb.stmts() if s_.k == "assign" and s_.rv.k == "aggr" and s_.rv.j.get("adt", "").endswith("events::Event") and ("L", s_.lhs.local) in sl_ev]
+                    if not built:
+                        ctx.violation("V1", "unrecognised-event|" + wb.short, "write_event with an event the analysis cannot identify (fail closed)", loc_str(t.span))
                     continue
-                kind = ev.rv.j["variant"]
-                el, how = element_of(ev.rv.ops[0])
-                if el is None:
-                    ctx.violation("V1", "unrecognised-element|" + wb.short, "write_event(Event::%s) with an element whose name is not a literal (fail closed)" % kind, loc_str(t.span))
-                    continue
-                written.add((el, kind))
-                write_sites.setdefault((el, kind), []).append((wb, t))
-                if el == "#text":
-                    ctx.require(how == "new", "V3", "text-escaped", "text content is built with BytesText::new (escaping)", "text content is built with BytesText::%s: special characters are written raw" % how, loc_str(t.span))
+                continue
             elif nm.endswith("BytesStart::push_attribute"):
                 el, _ = element_of(t.args[0])
                 aty = t.callee.args[-1] if t.callee.args else "?"
@@ -109,6 +157,41 @@ def run(ctx):
                     ctx.violation("V2", "unrecognised-attribute|" + wb.short, "push_attribute with a non-literal element/attribute name (fail closed)", loc_str(t.span))
                     continue
                 wattrs.setdefault(el, {})[name] = (val, t)
+    # every Event value the writer builds (each is written: directly, or later from a variable / array)
+    for wb in wbodies:
+        fl = flows.of(wb)
+        for s_ in wb.stmts():
+            if s_.k != "assign" or s_.rv.k != "aggr" or not s_.rv.j.get("adt", "").endswith("events::Event") or not s_.rv.ops:
+                continue
+            kind = s_.rv.j["variant"]
+            oc = panic.origin_call(fl, s_.rv.ops[0])
+            el = how = None
+            if oc is not None and oc.callee:
+                nm_ = oc.callee.short
+                if nm_.endswith("BytesStart::new") or nm_.endswith("BytesEnd::new"):
+                    el, how = lit_str(fl.describe(oc.args[0], depth=6)), nm_.split("::")[-2]
+                elif nm_.endswith("BytesText::new") or nm_.endswith("BytesText::from_escaped"):
+                    el, how = "#text", nm_.split("::")[-1]
+                elif nm_.endswith("BytesStart::to_end") and oc.args:
+                    oc2 = panic.origin_call(fl, oc.args[0])
+                    if oc2 is not None and oc2.callee and oc2.callee.short.endswith("BytesStart::new"):
+                        el, how = lit_str(fl.describe(oc2.args[0], depth=6)), "BytesStart"
+            if el is None and oc is not None and oc.callee and (oc.callee.short.endswith("BytesStart::new") or oc.callee.short.endswith("BytesEnd::new")) and oc.args:
+                # the name comes from a list of literals that is looped over (`for name in ["graph", "graphml"]`)
+                lits = loop_item_literals(wb, fl, oc.args[0])
+                if lits:
+                    for el2 in lits:
+                        written.add((el2, kind))
+                        write_sites.setdefault((el2, kind), []).append((wb, wb.blocks[s_.bb].term))
+                    continue
+            if el is None:
+                ctx.violation("V1", "unrecognised-element|" + wb.short, "Event::%s built from an element whose name is not a literal (fail closed)" % kind, loc_str(s_.span))
+                continue
+            written.add((el, kind))
+            site = wb.blocks[s_.bb].term
+            write_sites.setdefault((el, kind), []).append((wb, site))
+            if el == "#text":
+                ctx.require(how == "new", "V3", "text-escaped", "text content is built with BytesText::new (escaping)", "text content is built with BytesText::%s: special characters are written raw" % how, loc_str(s_.span))
     ctx.counters["written_events"] = sorted("%s:%s" % x for x in written)
     ctx.counters["written_attributes"] = {k: sorted(v) for k, v in wattrs.items()}
 
